@@ -220,8 +220,15 @@ def concretize(model, x, max_elems=4096):
         dt = {"f": float, "i": int, "b": bool}[x.kind]
         out = np.empty(shape, dtype=dt)
         c = Ctx.current
+        uf = getattr(x.storage, "uf", None)
         for idx in np.ndindex(*shape):
-            v = x.at(*idx)
+            if uf is not None and x._fwd is None:
+                import z3
+
+                t = uf(*[z3.IntVal(int(i)) for i in idx])
+                v = SymBool(t) if x.kind == "b" else SymNum(t, "real" if x.kind == "f" else "int")
+            else:
+                v = x.at(*idx)
             out[idx] = model_value(model, v)
         return out
     if isinstance(x, tuple):
